@@ -16,10 +16,11 @@ from __future__ import annotations
 
 import json
 import sys
+import time
 from fractions import Fraction
 
 from .common import HardTimeout, Run, main_wrapper, make_pool, pmap, time_limit
-from .geom import compare_exact, in_threads, is_pythagorean, rat, to_fraction
+from .geom import exact_value, in_threads, is_pythagorean, rat
 from .tlc import Scratch, run_tlc, write_cfg
 
 PID = "C11"
@@ -30,7 +31,7 @@ TIERS = {
         vector=[dict(MaxDepth=4, PointIdx={1, 5}, Octants={1, 4, 6}, PartnerIdx=2, Scales={2}),
                 dict(MaxDepth=3, PointIdx={13}, Octants={2, 3}, PartnerIdx=14, Scales={3})],
         field=[dict(MaxDepth=4, PointIdx={1, 5}, Octants={1, 4, 6}, PartnerIdx=2, Scales=set())],
-        symbolic=False),
+        symbolic=True),
     "thorough": dict(
         vector=[dict(MaxDepth=6, PointIdx={1, 5}, Octants={1, 4, 6, 7}, PartnerIdx=4, Scales={2}),
                 dict(MaxDepth=4, PointIdx={1, 2, 3, 4, 5, 6, 7, 8, 9, 10, 11, 12}, Octants={2, 3, 5, 8}, PartnerIdx=1, Scales={2, 3}),
@@ -141,17 +142,20 @@ class _Ctx:
         self.problems = []      # (path index, step index, clause, what)
         self.outside = {}
         self.steps = 0
+        self.t0 = time.time()
         self.observed = {}      # prefix (tuple of (act, arg)) -> recorded projection of the real state
         self.records = []       # one record per executed real step, for spec/RebaseTrace.tla
 
 
 def _cmp(ctx, where, clause, expr, want, label):
-    verdict = compare_exact(expr, Fraction(want))
+    """Compare a real value with the model's; returns the real value as [n, d] when it is known exactly."""
+    verdict, value = exact_value(expr, Fraction(want))
     if verdict == "different":
         ctx.problems.append((where, clause, f"{label}: real value {expr}, model {want}"))
     elif verdict == "numeric-equal":
         ctx.outside["value not reduced to a rational by SymPy (agrees numerically to 40 digits)"] = \
             ctx.outside.get("value not reduced to a rational by SymPy (agrees numerically to 40 digits)", 0) + 1
+    return None if value is None else rat(value)
 
 
 def observe_vector(ctx, where, va, vb, repr_, obs):
@@ -167,17 +171,11 @@ def observe_vector(ctx, where, va, vb, repr_, obs):
             ctx.problems.append((where, "system", f"vector {name} has {len(v.components)} components"))
             return rec
         proj = project(kind, v.components)
-        for i, (c, want) in enumerate(zip(proj, obs[name])):
-            _cmp(ctx, where, f"cartesian {name}[{i}]", c, want, f"{kind} components {list(v.components)} project to")
-        fr = [to_fraction(c) for c in proj]
-        rec[name] = None if any(f is None for f in fr) else [rat(f) for f in fr]
-    d = ar.dot_vectors(va, vb)
-    _cmp(ctx, where, "dot", d, obs["dot"], f"dot_vectors in {repr_}")
-    m = ar.vector_magnitude(va)
-    _cmp(ctx, where, "magnitude", m**2, obs["msq"], f"vector_magnitude^2 in {repr_}")
-    fd, fm = to_fraction(d), to_fraction(m**2)
-    rec["dot"] = None if fd is None else rat(fd)
-    rec["msq"] = None if fm is None else rat(fm)
+        fr = [_cmp(ctx, where, f"cartesian {name}[{i}]", c, want, f"{kind} components {list(v.components)} project to")
+              for i, (c, want) in enumerate(zip(proj, obs[name]))]
+        rec[name] = None if any(f is None for f in fr) else fr
+    rec["dot"] = _cmp(ctx, where, "dot", ar.dot_vectors(va, vb), obs["dot"], f"dot_vectors in {repr_}")
+    rec["msq"] = _cmp(ctx, where, "magnitude", ar.vector_magnitude(va)**2, obs["msq"], f"vector_magnitude^2 in {repr_}")
     return rec
 
 
@@ -204,9 +202,7 @@ def observe_field(ctx, where, field, cart, repr_, obs):
             if out[0] == "raised":
                 ctx.problems.append((where, f"apply {pk} point", f"{kind} field refused its own kind of point: {out[1]}"))
             else:
-                _cmp(ctx, where, "field value", out[1], obs["value"], f"{kind} field at the physical point {cart}")
-                f = to_fraction(out[1])
-                rec["value"] = None if f is None else rat(f)
+                rec["value"] = _cmp(ctx, where, "field value", out[1], obs["value"], f"{kind} field at the physical point {cart}")
     return rec
 
 
@@ -217,24 +213,25 @@ def replay_group(group):
     obj, start = group["obj"], group["start"]
     cart_a, b = group["a"], group["b"]
     try:
-        with time_limit(600):
+        with time_limit(STEP_SECONDS):
             if obj == "vector":
                 state = (make_vector(cart_a, start["repr"]), make_vector(b, start["repr"]))
                 rec0 = observe_vector(ctx, (-1, 0), state[0], state[1], start["repr"], start["obs"])
             else:
                 state = make_field(b, start["repr"], group["ctor"])
                 rec0 = observe_field(ctx, (-1, 0), state, cart_a, start["repr"], start["obs"])
-            ctx.observed[()] = rec0
-            # trie of the paths
-            trie = {}
-            for idx, path in group["paths"]:
-                node = trie
-                for depth, step in enumerate(path):
-                    key = (step["act"], step["arg"])
-                    node = node.setdefault(key, {"step": step, "idx": idx, "depth": depth, "next": {}})["next"]
+        ctx.observed[()] = rec0
+        # trie of the paths
+        trie = {}
+        for idx, path in group["paths"]:
+            node = trie
+            for depth, step in enumerate(path):
+                key = (step["act"], step["arg"])
+                node = node.setdefault(key, {"step": step, "idx": idx, "depth": depth, "next": {}})["next"]
+        if not ctx.problems:
             _walk(ctx, group, state, trie, ())
     except HardTimeout:
-        ctx.outside["group timed out (SymPy)"] = ctx.outside.get("group timed out (SymPy)", 0) + 1
+        ctx.outside["start state timed out (SymPy)"] = ctx.outside.get("start state timed out (SymPy)", 0) + 1
     return group["gid"], ctx.problems, ctx.outside, ctx.steps, ctx.records
 
 
@@ -254,47 +251,73 @@ def _step_record(group, pre, act, arg, refused, post):
             "post_repr": post["kind"], "post": post_obs, "prefix": None}
 
 
-def _walk(ctx, group, state, trie, prefix):
+STEP_SECONDS = 30
+GROUP_SECONDS = 900
+
+
+def _one_step(ctx, group, state, step, where, act, arg, prefix):
+    """Execute one real action and observe; returns (projection record, new real state, refused) or None."""
     from symplyphysics.core.vectors import arithmetics as ar
     obj, cart_a = group["obj"], group["a"]
+    new_state, refused = state, None
+    if act == "rebase":
+        target = _init()[arg]
+        try:
+            if obj == "vector":
+                new_state = (state[0].rebase(target), state[1].rebase(target))
+            else:
+                new_state = state.rebase(target)
+            refused = False
+        except HardTimeout:
+            raise
+        except Exception as e:  # pylint: disable=broad-except
+            refused = f"{type(e).__name__}: {str(e)[:80]}"
+            new_state = state
+    elif act == "scale":
+        new_state = (ar.scale_vector(int(arg), state[0]), state[1])
+        refused = False
+    if step["ok"] and refused:
+        ctx.problems.append((where, f"{act} {arg}", f"model allows {act} to {arg} from {prefix[-1:] or 'start'}, code raised {refused}"))
+        return None
+    if not step["ok"] and not refused:
+        got = [list(v.components) for v in new_state] if obj == "vector" else new_state.to_expression()
+        ctx.problems.append((where, f"{act} {arg}", f"model refuses the direct transformation to {arg}, code answered {got}"))
+        return None
+    if obj == "vector":
+        rec = observe_vector(ctx, where, new_state[0], new_state[1], step["repr"], step["obs"])
+    else:
+        rec = observe_field(ctx, where, new_state, cart_a, step["repr"], step["obs"])
+    return rec, new_state, refused
+
+
+def _walk(ctx, group, state, trie, prefix):
     for key, node in trie.items():
         step = node["step"]
         where = (node["idx"], node["depth"] + 1)
         act, arg = key
         ctx.steps += 1
-        new_state, refused = state, None
-        if act == "rebase":
-            target = _init()[arg]
-            try:
-                if obj == "vector":
-                    new_state = (state[0].rebase(target), state[1].rebase(target))
-                else:
-                    new_state = state.rebase(target)
-                refused = False
-            except HardTimeout:
-                raise
-            except Exception as e:  # pylint: disable=broad-except
-                refused = f"{type(e).__name__}: {str(e)[:80]}"
-                new_state = state
-        elif act == "scale":
-            new_state = (ar.scale_vector(int(arg), state[0]), state[1])
-            refused = False
-        if step["ok"] and refused:
-            ctx.problems.append((where, f"{act} {arg}", f"model allows {act} to {arg} from {prefix[-1:] or 'start'}, code raised {refused}"))
+        before = len(ctx.problems)
+        try:
+            with time_limit(STEP_SECONDS):
+                rec = _one_step(ctx, group, state, step, where, act, arg, prefix)
+        except HardTimeout:
+            ctx.outside["step timed out (SymPy); the paths below it were not replayed"] = \
+                ctx.outside.get("step timed out (SymPy); the paths below it were not replayed", 0) + 1
             continue
-        if not step["ok"] and not refused:
-            got = [list(v.components) for v in new_state] if obj == "vector" else new_state.to_expression()
-            ctx.problems.append((where, f"{act} {arg}", f"model refuses the direct transformation to {arg}, code answered {got}"))
+        if rec is None:
             continue
-        if obj == "vector":
-            rec = observe_vector(ctx, where, new_state[0], new_state[1], step["repr"], step["obs"])
-        else:
-            rec = observe_field(ctx, where, new_state, cart_a, step["repr"], step["obs"])
+        rec, new_state, refused = rec
         ctx.observed[prefix + (key,)] = rec
         record = _step_record(group, ctx.observed[prefix], act, arg, refused, rec)
         if record is not None:
             record["prefix"] = [list(k) for k in prefix + (key,)]
             ctx.records.append(record)
+        if len(ctx.problems) > before:
+            continue           # a failing step is reported once; the paths below it start from a wrong state
+        if time.time() - ctx.t0 > GROUP_SECONDS:
+            ctx.outside["group budget exhausted (SymPy slow); deeper paths not replayed"] = \
+                ctx.outside.get("group budget exhausted (SymPy slow); deeper paths not replayed", 0) + 1
+            continue
         _walk(ctx, group, new_state, node["next"], prefix + (key,))
 
 
